@@ -156,8 +156,11 @@ func (h *clientConnectionHandler) close() {
 		h.connectionsLock.Lock()
 		for clientAddr, holder := range h.connections {
 			delete(h.connections, clientAddr)
-			if err := holder.conn.Close(); err != nil {
-				log.Error().Err(err).Msg(err.Error())
+			// conn is nil while an Accept is pending for a client that has not been accepted (yet)
+			if holder.conn != nil {
+				if err := holder.conn.Close(); err != nil {
+					log.Error().Err(err).Msg(err.Error())
+				}
 			}
 			close(holder.ch)
 		}
